@@ -124,6 +124,7 @@ def play(case, expand):
 
     reg_time = {}
     names = {}
+    objs = {}
 
     def expect_timestep(t):
         """expected (t, id) entries of one timestep in C01 order: (-priority, registration moment). The spawner is registered
@@ -155,6 +156,9 @@ def play(case, expand):
             kw = {"start": int(s["start"]), "frequency": int(s["freq"])}
             if s.get("end") is not None:
                 kw["end"] = int(s["end"])
+            if s.get("numkind") == "enum":          # the window's numbers as members of an IntEnum / as bool where they are 0 or 1
+                import enum
+                kw = {k_: (bool(v_) if v_ in (0, 1) and k_ != "frequency" else enum.IntEnum("Phase", {"AT": v_}).AT) for k_, v_ in kw.items()}
             sid = {"int": 1000 + i, "tuple": ("w", i), "empty": "" if i == 0 else f"w{i}", "spaces": f"w {i} é"}.get(s.get("idkind"), f"w{i}")
             names[i] = sid
             obj = (WinCollector if s.get("coll") else Win)(sid, donor if s.get("foreign") else model, log, positional=bool(s.get("ctor_pos")), **kw)
@@ -166,6 +170,7 @@ def play(case, expand):
                     raise
                 continue                            # a tree may insist on str ids (the documented type) or on its own systems: then the system simply is not there
             registered.append(i)
+            objs[i] = obj
             reg_time[i] = T
             if T > int(s["start"]):
                 info["late"] = True
@@ -219,6 +224,18 @@ def play(case, expand):
                     model.execute(n=n)      # by keyword
                 else:
                     model.execute(n)
+        elif kind == "requeue":
+            # a registered system is taken out and the very same object registered again straight away ("go to the back of my
+            # priority group"), between two steps: it is registered once, with its window unchanged
+            if not registered:
+                continue
+            register_due()
+            i = registered[int(op.get("k", 0)) % len(registered)]
+            model.systems.remove_system(names[i])
+            model.systems.add_system(objs[i])
+            registered.remove(i)
+            registered.append(i)
+            reg_time[i] = T
         elif kind == "bad":
             val = BAD[op["n"]]
             before = (model.timestep, list(log))
@@ -293,11 +310,13 @@ def strategy(tier):
         reg = draw(wone_of(st.just(0), st.just(0), st.integers(0, 12)))
         return {"start": start, "freq": freq, "end": end, "reg_at": reg, "coll": draw(st.sampled_from([False, False, True])),
                 "idkind": draw(st.sampled_from(["str", "str", "str", "str", "int", "tuple", "empty", "spaces"])),
-                "foreign": draw(st.sampled_from([False] * 9 + [True])), "ctor_pos": draw(st.booleans())}
+                "foreign": draw(st.sampled_from([False] * 9 + [True])), "ctor_pos": draw(st.booleans()),
+                "numkind": draw(st.sampled_from(["int", "int", "int", "enum"]))}
     op = wone_of(st.just({"op": "step"}), st.just({"op": "step"}), st.just({"op": "exec_systems"}),
                    st.builds(lambda n: {"op": "stepn", "n": n}, st.integers(1, 5)),
                    st.builds(lambda n: {"op": "stepn", "n": n}, st.integers(2, 5)),
-                   st.builds(lambda n: {"op": "bad", "n": n}, st.sampled_from(sorted(BAD))))
+                   st.builds(lambda n: {"op": "bad", "n": n}, st.sampled_from(sorted(BAD))),
+                   st.builds(lambda k: {"op": "requeue", "k": k}, st.integers(0, 5)))
     bign = st.builds(lambda n: {"op": "stepn", "n": n}, near_pow2(15, 260))
     long_script = st.builds(lambda a, b, c: a + [b] + c, sized_lists(op, 0, 4), bign, sized_lists(op, 0, 4))
     many = st.lists(system(), min_size=17, max_size=70)
